@@ -138,6 +138,16 @@ def static_check(cfg, s):
                      f'{GAMES[cfg["game"]][0]}: {what} is {got}, the name/'
                      f'documentation say {want}'))
 
+    # what the caller asked for reaches the state, whichever variant and
+    # whichever creation route (create_state / game object)
+    if s.starting_board_count != cfg.get('boards', 1):
+        bad('starting_board_count', s.starting_board_count,
+            f'{cfg.get("boards", 1)} (requested)')
+    if str(getattr(s.mode, 'value', s.mode)) != (
+            'Tournament' if cfg['mode'] == 'T' else 'Cash-game'):
+        bad('mode', s.mode, cfg['mode'])
+    if bool(s.ante_trimming_status) != bool(cfg['trim']):
+        bad('ante_trimming_status', s.ante_trimming_status, cfg['trim'])
     deck = {rs(c) for c in s.deck}
     if deck != t['deck'] or len(tuple(s.deck)) != len(t['deck']):
         bad('deck', sorted(deck)[:8], f'{len(t["deck"])} cards')
